@@ -221,6 +221,13 @@ def content_and_type(chk, prog, cfg):
         # content type
         for blk, t in b.calls_to(r"mime::MimeType::from_extension$"):
             d = describe(prog, b, t["args"][0])
+            if d == ("lit", ""):
+                # the arm for a path without an extension: from_extension("") under the None edge of path.extension()
+                gs = core.guards_dominating(prog, b, blk)
+                none_arm = any(lab == "None" and isinstance(gd, tuple) and gd[0] == "call" and gd[1].endswith("Path::extension") for s_, lab, gd, info in gs)
+                chk.ob("R3.content_type", fn, "no extension -> MimeType::from_extension(\"\")", none_arm,
+                       "from_extension(\"\") is used although the path may have an extension", where=b.where(blk), cfg=cfg)
+                continue
             ok = desc_contains(d, lambda y: y[0] == "call" and y[1].endswith("Path::extension"))
             # the extension must be of the path that was opened
             ext_calls = [c for c in core.desc_calls(d) if c[1].endswith("Path::extension")]
@@ -448,20 +455,31 @@ def request_path_derivation(chk, prog, cfg):
                 other = [tgt for l2, tgt in info["edges"].items() if l2 != lab]
                 stops = stops or not any(nb in dh.reachable(other) for nb in nexts)
             # counted form: `for _ in 0..matches.chars().take_while(|c| c != '*').count() { uri.remove(0) }`
+            def star_prefix(tw):
+                """`matches.chars().take_while(|c| c != '*')`"""
+                if not (tw[0] == "call" and tw[1].endswith("Iterator::take_while") and tw[2][0][0] == "call" and tw[2][0][1].endswith("::chars")
+                        and desc_contains(tw[2][0][2][0], lambda z: z[0] == "param" and z[2] == "matches") and len(core.desc_calls(tw[2][0][2][0])) == 0):
+                    return False
+                cl = tw[2][1]
+                cb = prog.bodies.get(cl[1]) if cl[0] == "closure" else None
+                r = core.describe(prog, cb, 0) if cb is not None else None
+                return cb is not None and cb.argc == 2 and r[0] == "bin" and r[1] == "Ne" and r[2][0] == "param" and r[2][1] == 2 and r[3] == ("lit", 42)
+
             def counted(dd):
+                # `for _ in matches.chars().take_while(|c| c != '*') { uri.remove(0) }`
+                if isinstance(dd, tuple) and dd[0] == "call" and core.re.search(r"TakeWhile<I, P> as std::iter::Iterator>::next$|Iterator>?::next$", dd[1]) and dd[2]:
+                    it = dd[2][0]
+                    while it[0] == "call" and core.re.search(r"IntoIterator>::into_iter$|::into_iter$", it[1]) and it[2]:
+                        it = it[2][0]
+                    if star_prefix(it):
+                        return True
                 if not (isinstance(dd, tuple) and dd[0] == "call" and core.re.search(r"Range<\w+>>::next$", dd[1])):
                     return False
                 for rg in (y for y in core.desc_subterms(dd) if isinstance(y, tuple) and y[0] == "variant" and y[1].endswith("ops::Range") and len(y[3]) == 2):
                     lo, hi = rg[3]
                     if lo != ("lit", 0) or not (hi[0] == "call" and hi[1].endswith("Iterator::count")):
                         continue
-                    tw = hi[2][0]
-                    if not (tw[0] == "call" and tw[1].endswith("Iterator::take_while") and tw[2][0][0] == "call" and tw[2][0][1].endswith("::chars")
-                            and desc_contains(tw[2][0][2][0], lambda z: z[0] == "param" and z[2] == "matches") and len(core.desc_calls(tw[2][0][2][0])) == 0):
-                        continue
-                    cl = tw[2][1]
-                    cb = prog.bodies.get(cl[1]) if cl[0] == "closure" else None
-                    if cb is not None and cb.argc == 2 and core.describe(prog, cb, 0) == ("bin", "Ne", ("param", 2, None), ("lit", 42)):
+                    if star_prefix(hi[2][0]):
                         return True
                 return False
             if any(lab == "Some" and counted(dd) for s_, lab, dd, info in gs) and not star:
